@@ -212,6 +212,14 @@ def random_spec(rng, want_cn=None, pseudogene=None, kinds=None, hostile=0.3, max
             lo, hi = rs[reg]
             if hi - lo < 24:
                 continue
+            if kind == "snp" and rng.random() < hostile * 0.5:
+                # hostile: a substitution on the first / last base of a region
+                i = rng.choice([lo, hi - 1])
+                pos1, op = i + 1, f"{seq[i]}>{rng.choice([b for b in BASES if b != seq[i]])}"
+                if free((i, i + 1), margin):
+                    used.append((i, i + 1))
+                    return [pos1, op]
+                continue
             pos1, op = _rand_variant(rng, seq, lo + 8, hi - 8, kind)
             sp = variant_span(pos1, op)
             if sp[0] < lo + 6 or sp[1] > hi - 6:
@@ -320,6 +328,30 @@ def random_spec(rng, want_cn=None, pseudogene=None, kinds=None, hostile=0.3, max
                 if rng.random() < 0.5:
                     alleles[f"{name}*{num}.050"]["label"] = f"{name}*{num}X"
                 majors.append((f"{num}.050", c2))
+    # duplicate variant set under a different allele number (natural vs string order of names differ)
+    if rng.random() < hostile and majors:
+        num, core = rng.choice([m for m in majors if isinstance(m[0], int)] or majors)
+        if isinstance(num, int):
+            src = alleles[f"{name}*{num}.001"]["mutations"]
+            alleles[f"{name}*{num + 8}.001"] = {"mutations": [list(m) for m in src]}
+    # several different core sets under one number and one (already taken) label
+    if rng.random() < hostile and majors and len(pool) >= 3:
+        num, core = majors[0]
+        if isinstance(num, int):
+            keyset = [sorted((m[0], m[1]) for m in c) for _, c in majors]
+            made = 0
+            for extra_v in pool:
+                c2 = core + [extra_v]
+                k2 = sorted((m[0], m[1]) for m in c2)
+                if extra_v in core or not compatible(c2) or k2 in keyset:
+                    continue
+                alleles[f"{name}*{num}.{60 + made:03d}"] = {"label": f"{name}*{num}",
+                                                             "mutations": [list(m) for m in c2]}
+                keyset.append(k2)
+                majors.append((f"{num}.{60 + made:03d}", c2))
+                made += 1
+                if made >= 3:
+                    break
     if rng.random() < 0.2:
         alleles[f"{name}*99.001"] = {"ignored": True, "mutations": [[5, f"{seq[4]}>{'A' if seq[4] != 'A' else 'C'}"]]}
 
